@@ -363,7 +363,7 @@ def call_real(c, workdir):
     return tr
 
 
-def signature(c, tr):
+def signature(c, tr, failed=()):
     """The defect class of a rejected case, from its input only.  The classes are made exclusive (first match) so that
     one listed finding / one fix accounts for a class:
       target_only_fasta_shared_decoy_row  FASTA without decoy entries and a decoy row whose peptide is shared
@@ -371,9 +371,14 @@ def signature(c, tr):
       decoy_group_named_in_other_order    a pair with unique peptides on both sides whose decoy group name does not
                                           start with the prefixed first member of the target group name"""
     cls = tr["cls"]
+    failed = set(failed)
     k1 = (not cls["fasta_decoys"]) and cls["shared_decoy_row"]
     k2 = (not k1) and cls["all_shared"]
     k3 = (not k1) and (not k2) and cls["decoy_group_named_in_other_order"]
+    # a class only accounts for the clauses its defect can break; anything else stays unclassified
+    k1 = k1 and tr["raised"] == "" and failed <= {"KnownGroup", "OnePerPair", "OwnerGroup", "SharedNever", "QExact"}
+    k2 = k2 and tr["raised"] == "KeyError" and failed <= {"Returned"}
+    k3 = k3 and tr["raised"] == "" and failed <= {"OnePerPair", "BestPeptide"}
     sig = {"api": "picked_protein" if c["mode"] == "direct" else "assign_confidence(proteins=)", "raised": tr["raised"],
            "target_only_fasta_shared_decoy_row": k1, "all_shared": k2, "decoy_group_named_in_other_order": k3}
     if not (k1 or k2 or k3):        # unclassified: keep the whole case in the signature
@@ -487,7 +492,7 @@ def model_checks(ctx):
     jobs = [("Picked_quick.cfg", dict(note="<= 4 rows, <= 3 pairs, kinds single/swap, unmapped peptides"), 6),
             ("Picked_kinds.cfg", dict(note="<= 3 rows, <= 3 pairs, kinds single/same/sub/swap, unmapped peptides"), 3)]
     if not ctx.quick:
-        jobs.append(("Picked_thorough.cfg", dict(note="<= 5 rows, <= 4 pairs, kinds single/swap, unmapped peptides"), 8))
+        jobs.append(("Picked_thorough.cfg", dict(note="<= 5 rows, <= 4 pairs, every pair of kind swap"), 8))
     jobs += [
         ("Picked_asis1.cfg", dict(expect_violation="NoErrorInDomain",
                                   note="as the code: KeyError when no row maps to a unique group"), 1),
@@ -526,8 +531,8 @@ def run(ctx):
     nbase = len(base)
     if not ctx.quick:        # thorough: every table of <= 4 rows, every second one of 5 rows (the half rotates with the seed)
         base = [b for k, b in enumerate(base) if b["n"] <= 4 or (k + ctx.seed) % 2 == 0]
-    extra = [random_table(rng, 6, 4) for _ in range(600 if ctx.quick else 30000)]
-    extra += [random_table(rng, 40, 10) for _ in range(100 if ctx.quick else 4000)]
+    extra = [random_table(rng, 6, 4) for _ in range(600 if ctx.quick else 10000)]
+    extra += [random_table(rng, 40, 10) for _ in range(100 if ctx.quick else 2000)]
     cases = []
     for k, b in enumerate(base + extra):
         cases.append(make_case(len(cases), b, ctx.seed, "direct"))
@@ -575,7 +580,7 @@ def run(ctx):
     classes = {}
     for i in sorted(rejected, key=lambda i: (cases[i]["n"], len(cases[i]["kinds"]), i)):     # smallest first
         tr, c = traces[i], cases[i]
-        sig = signature(c, tr)
+        sig = signature(c, tr, verdicts[tr["tid"]]["failed"])
         key = ", ".join(["api=" + sig["api"]] + [k for k in ("target_only_fasta_shared_decoy_row", "all_shared",
                         "decoy_group_named_in_other_order") if sig[k]] + ["raised=" + sig["raised"]])
         classes[key] = classes.get(key, 0) + 1
@@ -639,7 +644,7 @@ def replay(ctx, case):
     if "InputOK" in v["failed"]:
         raise MachineryError("replayed case does not realise its structure")
     if not v["accept"]:
-        ctx.reject({"case": c, "trace": tr}, v["failed"], signature(c, tr))
+        ctx.reject({"case": c, "trace": tr}, v["failed"], signature(c, tr, v["failed"]))
     ctx.count(1)
     ctx.count(2)
     ctx.sample({"rows": tr["rows"], "out": tr["out"], "raised": tr["raised"], "message": tr["message"]})
